@@ -1,0 +1,5 @@
+//go:build !verif
+
+package v2
+
+func verifHook(string, uint64) {}
